@@ -10,7 +10,7 @@ def hook_commits():
 CLAIMED = {
  "C09": dict(
    level="exploration",
-   text="(A) seeded sweep of structurally valid values over 14 format families (all slip / transaction types, 0..255 slips, empty to multi-KiB payloads, 0-5 hops, extreme integers, every message tag, handshake, ghost chain, key lists, services, wallet file, version, Full/Header blocks): predicted size, decode, field equality, byte-identical re-encoding, unchanged hash and signature verdict; every message form is also delivered to a live node. (B) seam monitor on a real producer + observer network: every delivered message re-encodes to itself; every block file the observer writes decodes, generates, re-encodes identically, carries the hash of its file name and equals the producer's bytes; tip and stored hashes survive a crash-free restart. Later additions: all signed header fields of the random blocks are random; the lite form of each random block crosses the wire and must keep the block's hash. Rounds 5-6: every numeric header field of the random blocks has its own value.",
+   text="(A) seeded sweep of structurally valid values over 14 format families (all slip / transaction types, 0..255 slips, empty to multi-KiB payloads, 0-5 hops, extreme integers, every message tag, handshake, ghost chain, key lists, services, wallet file, version, Full/Header blocks): predicted size, decode, field equality, byte-identical re-encoding, unchanged hash and signature verdict; every message form is also delivered to a live node. (B) seam monitor on a real producer + observer network: every delivered message re-encodes to itself; every block file the observer writes decodes, generates, re-encodes identically, carries the hash of its file name and equals the producer's bytes; tip and stored hashes survive a crash-free restart. Later additions: all signed header fields of the random blocks are random; the lite form of each random block crosses the wire and must keep the block's hash. Rounds 5-6: every numeric header field of the random blocks has its own value. Rounds 8-9: multi-byte UTF-8 in urls and domains.",
    design="§6 C09, §7",
    note="Reduced scope (DESIGN §7): the quantifier over all structurally valid values is sampled by a seeded generator; the simulation-decided half is identity preservation across the real send/receive, disk and restart seams.",
    technique="deterministic simulation: round-trip / identity monitor at the simulated wire and disk seams + seeded value sweep"),
@@ -24,21 +24,21 @@ CLAIMED = {
 
  "C19": dict(
    level="exploration",
-   text="Producer chain (genesis period 4..8 or 100) feeding a wallet node (real Blockchain + Wallet): 5..40/150 seeded events (payments to the wallet key, transactions built through Transaction::create / create_with_multiple_payments with random, total, excessive and zero amounts, confirmation, delay, dropping, a competing fork that un-confirms, window expiry with rebroadcast). After every event: balance == sum of unspent slips, every unspent key in the slip table; until the first reorganisation the unspent set equals the reference ledger's in-window outputs of the key minus inputs committed to pending wallet transactions; every wallet-built transaction has distinct inputs, outputs <= inputs (u128) and validates against the ledger it was built on. Later additions: an ordinary transaction with txs_replacements != 1 accompanies a third of the payments to the wallet. Rounds 5-6: reorganisations of depth 1..prune depth+2 with prune depth 1/2/3/8; staking family at the wallet's interface (stakes assembled from stake outputs topped up with ordinary ones). Round 7: restore of a fresh wallet from the node's balance snapshot at the end of every run; stakes never select outputs below their validity bound.",
+   text="Producer chain (genesis period 4..8 or 100) feeding a wallet node (real Blockchain + Wallet): 5..40/150 seeded events (payments to the wallet key, transactions built through Transaction::create / create_with_multiple_payments with random, total, excessive and zero amounts, confirmation, delay, dropping, a competing fork that un-confirms, window expiry with rebroadcast). After every event: balance == sum of unspent slips, every unspent key in the slip table; until the first reorganisation the unspent set equals the reference ledger's in-window outputs of the key minus inputs committed to pending wallet transactions; every wallet-built transaction has distinct inputs, outputs <= inputs (u128) and validates against the ledger it was built on. Later additions: an ordinary transaction with txs_replacements != 1 accompanies a third of the payments to the wallet. Rounds 5-6: reorganisations of depth 1..prune depth+2 with prune depth 1/2/3/8; staking family at the wallet's interface (stakes assembled from stake outputs topped up with ordinary ones). Round 7: restore of a fresh wallet from the node's balance snapshot at the end of every run; stakes never select outputs below their validity bound. Rounds 8-9: a slip the wallet already holds handed to it again.",
    design="§6 C19",
    note="Trusted: reference ledger of the producer chain. NFTs are not generated; staking only in the wallet-interface family.",
    technique="deterministic simulation: seeded payment/spend/confirm/drop/reorg/expiry histories through a real node + wallet-vs-ledger model"),
 
  "C20": dict(
    level="exploration",
-   text="A producing full node, 0..2 observers (one optionally SPV) that dial, handshake and sync, a wallet and up to 4 external peers that connect, (mis)authenticate, request chains / ghost chains, send key lists, services, transactions, announce blocks whose bodies are garbage / a different block / an invalid block, and leave; 10..60/160 scripted operations per run. Hook H5 logs every lock request of saito-core code with the locks the task holds: no request for a rank while a later rank is held (configs 3 < blockchain 4 < mempool 5 < peers 6 < wallet 7) unless a write-held earlier lock serialises every observed opposite-order acquisition; no re-request of a held lock with a writer involved. In 5 of 6 runs the four processors of a node run as concurrent tasks (event handler, timer call or statistics call each) under a seeded poll-level scheduler that may suspend a task before every lock request and inside every I/O call; unfinished tasks with none woken = deadlock, reported with holders and awaited locks. Scope: saito-core paths the simulator drives (84 of the 93 acquisition sites present in non-test source; tools/lock_sites.py lists them); saito-rust, saito-spammer and the saito-wasm gate are not run.",
+   text="A producing full node, 0..2 observers (one optionally SPV) that dial, handshake and sync, a wallet and up to 4 external peers that connect, (mis)authenticate, request chains / ghost chains, send key lists, services, transactions, announce blocks whose bodies are garbage / a different block / an invalid block, and leave; 10..60/160 scripted operations per run. Hook H5 logs every lock request of saito-core code with the locks the task holds: no request for a rank while a later rank is held (configs 3 < blockchain 4 < mempool 5 < peers 6 < wallet 7) unless a write-held earlier lock serialises every observed opposite-order acquisition; no re-request of a held lock with a writer involved. In 5 of 6 runs the four processors of a node run as concurrent tasks (event handler, timer call or statistics call each) under a seeded poll-level scheduler that may suspend a task before every lock request and inside every I/O call; unfinished tasks with none woken = deadlock, reported with holders and awaited locks. Scope: saito-core paths the simulator drives (84 of the 93 acquisition sites present in non-test source; tools/lock_sites.py lists them); saito-rust, saito-spammer and the saito-wasm gate are not run. Rounds 8-9: checkpoint file for a block re-fetched after a lost tip-file at observer restarts.",
    design="§6 C20, §7",
    note="Trusted: hook H5 (wrapper records at request time; ranks by type name). Dynamic: only executed paths are judged.",
    technique="deterministic simulation: lock-rank monitor over seeded multi-node workloads + seeded poll-level interleaving of the processors with deadlock detection"),
 
  "C14": dict(
    level="exploration",
-   text="One real node (consensus processor with timer-driven bundling and the real mempool): 4..40/120 seeded operations mixing transaction arrivals (valid, two-input, conflicting, duplicate), staging and bundling ticks, peer blocks that confirm / partially spend / conflict with pooled transactions, invalid peer blocks and a peer fork that reorganises away the last block. After every operation a reference view of the pool is checked: no shared inputs, every pooled transaction valid against the ledger, reservations subset of pooled inputs, routing-work cache exact, bundling all-or-nothing, and an active probe that an unreserved unspent output can be spent by a fresh transaction. Later additions: payments routed to the node (routing work cache), two-input transaction conflicting on its second input, sibling of the tip spending a reserved input, reservations must equal the pooled inputs (both directions). Rounds 5-6: a refused block under the node's own key whose transactions are handed back to the pool.",
+   text="One real node (consensus processor with timer-driven bundling and the real mempool): 4..40/120 seeded operations mixing transaction arrivals (valid, two-input, conflicting, duplicate), staging and bundling ticks, peer blocks that confirm / partially spend / conflict with pooled transactions, invalid peer blocks and a peer fork that reorganises away the last block. After every operation a reference view of the pool is checked: no shared inputs, every pooled transaction valid against the ledger, reservations subset of pooled inputs, routing-work cache exact, bundling all-or-nothing, and an active probe that an unreserved unspent output can be spent by a fresh transaction. Later additions: payments routed to the node (routing work cache), two-input transaction conflicting on its second input, sibling of the tip spending a reserved input, reservations must equal the pooled inputs (both directions). Rounds 5-6: a refused block under the node's own key whose transactions are handed back to the pool. Rounds 8-9: nodes that joined mid-chain; transactions whose input a held block already spent.",
    design="§6 C14",
    note="Trusted: reference ledger, universe builder for peer blocks; the probe transaction is removed again after the probe.",
    technique="deterministic simulation: seeded interleavings of pool / bundling / peer-block / reorg operations + reference pool model with active spendability probe"),
@@ -52,49 +52,49 @@ CLAIMED = {
 
  "C12": dict(
    level="fault_enumeration",
-   text="Histories (producer chain over genesis period 3..6 with rebroadcast, pruning and purge, optional side fork) delivered to a real full node whose simulated disk journals every write/remove; every journal prefix x tear class {absent, empty, header cut, half, all-but-last-byte, complete} of the next operation is a crash image on which a brand-new node runs the real start-up (Wallet::load, ConsensusThread::on_init, delete_old_blocks on/off). Oracle: no panic; restarted tip was given to the node before the crash point; in-window spendable value equals the reference ledger at that tip; conservation equation; clean shutdown restarts at the same tip; the node adopts the next three blocks. Later additions: second crash during the start-up's own storage operations; clean restart after recovery + three blocks; histories in which the main chain wins by a reorganisation through a block received while it was the shorter branch. Rounds 5-6: for the clean image of fork histories: restart, the stored side branch overtakes the main chain, restart again. Round 7: a late competing block at the purge horizon; histories with blocks 6-9 s apart (steep burn-fee decay).",
+   text="Histories (producer chain over genesis period 3..6 with rebroadcast, pruning and purge, optional side fork) delivered to a real full node whose simulated disk journals every write/remove; every journal prefix x tear class {absent, empty, header cut, half, all-but-last-byte, complete} of the next operation is a crash image on which a brand-new node runs the real start-up (Wallet::load, ConsensusThread::on_init, delete_old_blocks on/off). Oracle: no panic; restarted tip was given to the node before the crash point; in-window spendable value equals the reference ledger at that tip; conservation equation; clean shutdown restarts at the same tip; the node adopts the next three blocks. Later additions: second crash during the start-up's own storage operations; clean restart after recovery + three blocks; histories in which the main chain wins by a reorganisation through a block received while it was the shorter branch. Rounds 5-6: for the clean image of fork histories: restart, the stored side branch overtakes the main chain, restart again. Round 7: a late competing block at the purge horizon; histories with blocks 6-9 s apart (steep burn-fee decay). Rounds 8-9: side block as a sibling of the tip; the restarted node's miner must have been handed the tip.",
    design="§6 C12",
    note="Trusted: journal/tear model (process death; write_value = truncate+write without fsync/rename as in RustIOHandler), reference ledgers of the producer. Quick tier enumerates the images of 100 histories (12 chunks of 24 images each); thorough 5000 histories.",
    technique="deterministic simulation: storage-journal crash-point x torn-write enumeration with real restart path and ledger/supply/liveness oracle"),
 
  "C11": dict(
    level="exploration",
-   text="Node under test (all four real processors, timer-driven bundling and mining) with an honest scripted peer and an attacker holding an authenticated or unauthenticated connection plus a second unauthenticated one: 3..25/80 moves, two thirds hostile from a 22-entry catalogue (every odd message tag, storms, second handshake with another key, announcements answered with garbage or with well-formed hostile blocks, hostile transactions, reconnect storms) interleaved with honest blocks/transactions, timer rounds and clock jumps; the system runs to quiescence after each move. Oracle: no handler panics, quiescence within the step cap, and after a hostile move the digest of tip / stored blocks / spendable set / pool / honest peer entry / its key mapping is unchanged. Later additions: hostile kinds typed-tx-odd-shape, unparsable-signature, hostile-block-huge-replacements; per-move allocation oracle (128 MiB). Rounds 5-6: hostile blocks same-input-twice and id-zero-parent (the latter is the orphan class: known finding); one run in eight starts with an empty chain; one run in three ends with a restart from the node's own disk.",
+   text="Node under test (all four real processors, timer-driven bundling and mining) with an honest scripted peer and an attacker holding an authenticated or unauthenticated connection plus a second unauthenticated one: 3..25/80 moves, two thirds hostile from a 22-entry catalogue (every odd message tag, storms, second handshake with another key, announcements answered with garbage or with well-formed hostile blocks, hostile transactions, reconnect storms) interleaved with honest blocks/transactions, timer rounds and clock jumps; the system runs to quiescence after each move. Oracle: no handler panics, quiescence within the step cap, and after a hostile move the digest of tip / stored blocks / spendable set / pool / honest peer entry / its key mapping is unchanged. Later additions: hostile kinds typed-tx-odd-shape, unparsable-signature, hostile-block-huge-replacements; per-move allocation oracle (128 MiB). Rounds 5-6: hostile blocks same-input-twice and id-zero-parent (the latter is the orphan class: known finding); one run in eight starts with an empty chain; one run in three ends with a restart from the node's own disk. Rounds 8-9: log statements evaluated at error level always and at debug level in an eighth of the runs; arithmetic overflow checks on; traffic during clock-back moves.",
    design="§6 C11",
    note="Trusted: scripted peers, hostile-block construction (universe builder + reseal). Orphan deliveries are not generated here. Event-granularity scheduling.",
    technique="deterministic simulation: seeded hostile-peer message/fetch/connection sequences interleaved with honest traffic, panic/stall/state-digest oracle"),
 
  "C10": dict(
    level="fault_enumeration",
-   text="Catalogue of 26 valid encodings produced by a real history (every message tag, blocks, transaction, slip, hop, golden-ticket payload, wallet file, block file, fetched buffer); for each: ALL truncation lengths, every 4-byte window of the first 400 / last 20 bytes set to 11 boundary values and true value +-1, seeded bit flips and random strings. Every variant goes to the decoder directly (no panic; peak allocation <= 16*len + 1 MiB measured by a counting allocator) and through the real entry point of a live node (IncomingNetworkMessage from an authenticated peer followed to quiescence, BlockFetched buffer, file present at restart).",
+   text="Catalogue of 26 valid encodings produced by a real history (every message tag, blocks, transaction, slip, hop, golden-ticket payload, wallet file, block file, fetched buffer); for each: ALL truncation lengths, every 4-byte window of the first 400 / last 20 bytes set to 11 boundary values and true value +-1, seeded bit flips and random strings. Every variant goes to the decoder directly (no panic; peak allocation <= 16*len + 1 MiB measured by a counting allocator) and through the real entry point of a live node (IncomingNetworkMessage from an authenticated peer followed to quiescence, BlockFetched buffer, file present at restart). Rounds 8-9: buffers of every length up to 160 filled with 0x00 / 0xff.",
    design="§6 C10",
    note="Trusted: counting allocator; catalogue construction. Truncations and u32 windows are enumerated completely for the catalogue in both tiers; bit flips / random strings are sampled (more chunks in thorough).",
    technique="deterministic simulation with enumerated byte-corruption faults at the wire and disk seams (direct decoders + real handlers)"),
 
  "C16": dict(
    level="exploration",
-   text="One real node (routing/verification/consensus) with 2-3 scripted peers authenticated through the real handshake; 5..60/200 seeded operations (announce by any peer in any height order incl. the same block by several peers and unknown hashes, timer rounds, fetch completions with the right / undecodable / wrong block, fetch failures, disconnects), everything driven through the routing layer. Oracle at the I/O boundary after every operation: in-flight per peer <= batch size, no (peer, hash) in flight twice, no never-requested lower height skipped, every announced real block requested or present after faults stop, at most 501 requests per peer for a block that always fails. Later additions: fetch request from the consensus processor plus the peer's announcement within one round; in-flight = pending minus the new requests. Rounds 5-6: the consensus processor's request for a missing parent without any announcement (only the timer round can serve it). Round 7: a third of the runs with initial_loading_completed and children served before their parents.",
+   text="One real node (routing/verification/consensus) with 2-3 scripted peers authenticated through the real handshake; 5..60/200 seeded operations (announce by any peer in any height order incl. the same block by several peers and unknown hashes, timer rounds, fetch completions with the right / undecodable / wrong block, fetch failures, disconnects), everything driven through the routing layer. Oracle at the I/O boundary after every operation: in-flight per peer <= batch size, no (peer, hash) in flight twice, no never-requested lower height skipped, every announced real block requested or present after faults stop, at most 501 requests per peer for a block that always fails. Later additions: fetch request from the consensus processor plus the peer's announcement within one round; in-flight = pending minus the new requests. Rounds 5-6: the consensus processor's request for a missing parent without any announcement (only the timer round can serve it). Round 7: a third of the runs with initial_loading_completed and children served before their parents. Rounds 8-9: retries really run out (1100 rounds), then the peers that gave up announce a new block.",
    design="§6 C16",
    note="Trusted: scripted peers and the definition of in-flight (requested via InterfaceIO, not yet completed by the simulated controller). Fetches of children whose parent is unknown are failed by the scripted server so that the orphan known finding does not interfere.",
    technique="deterministic simulation: seeded announce/complete/fail/timer sequences through the routing layer + in-flight reference model at the I/O boundary"),
 
  "C17": dict(
    level="exploration",
-   text="Honest nodes A (dials out) and B (accepts) with the real routing/Network/Peer handshake code; the attacker is the network between them and may open further connections: 2..8/12 moves from 17 kinds (forward, drop, replay, reflect, redirect, own-key answer, unsolicited / self-signed / other-connection / used-challenge / wrong-version answers, own challenge, open, close). After every delivery to an honest node a provenance monitor checks that Connected-under-K only follows a response on that very connection signed by K over an outstanding challenge this node sent there, at most once per challenge, never the node's own key, and that authenticated peers and the key->connection mapping are undisturbed by messages that authenticate nobody. Later additions: A re-dials its static peer on the same peer index (challenges die with the connection); all-zero attacker challenges. Rounds 5-6: responses stating an incompatible core version never connect (a third of the runs with lite nodes); address_to_peers never names a connected peer that holds another key.",
+   text="Honest nodes A (dials out) and B (accepts) with the real routing/Network/Peer handshake code; the attacker is the network between them and may open further connections: 2..8/12 moves from 17 kinds (forward, drop, replay, reflect, redirect, own-key answer, unsolicited / self-signed / other-connection / used-challenge / wrong-version answers, own challenge, open, close). After every delivery to an honest node a provenance monitor checks that Connected-under-K only follows a response on that very connection signed by K over an outstanding challenge this node sent there, at most once per challenge, never the node's own key, and that authenticated peers and the key->connection mapping are undisturbed by messages that authenticate nobody. Later additions: A re-dials its static peer on the same peer index (challenges die with the connection); all-zero attacker challenges. Rounds 5-6: responses stating an incompatible core version never connect (a third of the runs with lite nodes); address_to_peers never names a connected peer that holds another key. Rounds 8-9: an entry carries a public key only after that key authenticated on the connection.",
    design="§6 C17",
    note="Trusted: monitor's bookkeeping of challenges seen leaving each honest node; sign/verify primitives. Attacker never holds an honest private key. Event-granularity scheduling.",
    technique="deterministic simulation: Dolev-Yao-minus-forgery attacker on a simulated network + handshake provenance monitor"),
 
  "C15": dict(
    level="exploration",
-   text="Two real full nodes (routing, verification, consensus processors) on SimNet with a fetch server over the peer's simulated disk: real handshake, BlockchainRequest, header-hash stream, fetches, verification, add. Seeded chain pairs (shared prefix 0..35/120 covering zero to several fork-id checkpoints, syncer suffix 0..8/30, peer suffix longer) x fetch batch size x seeded scheduling of every pending item x faults (duplicates, failed fetches, forced disconnect + reconnect, FIFO or any-order fetch completion). Oracle: peer announces every block after the true fork point; after faults stop the syncer reaches the peer's tip within 80 timer rounds; no processor panics. Later additions: syncer configured with initial_loading_completed = true (park-and-retry) in a third of the runs; never-announced blocks judged before the orphan classification; long-chain family (peer chain longer than its block ring, empty syncer). Round 7: long-chain family with a park-and-retry syncer genesis period + 2 behind and any-order fetch completion.",
+   text="Two real full nodes (routing, verification, consensus processors) on SimNet with a fetch server over the peer's simulated disk: real handshake, BlockchainRequest, header-hash stream, fetches, verification, add. Seeded chain pairs (shared prefix 0..35/120 covering zero to several fork-id checkpoints, syncer suffix 0..8/30, peer suffix longer) x fetch batch size x seeded scheduling of every pending item x faults (duplicates, failed fetches, forced disconnect + reconnect, FIFO or any-order fetch completion). Oracle: peer announces every block after the true fork point; after faults stop the syncer reaches the peer's tip within 80 timer rounds; no processor panics. Later additions: syncer configured with initial_loading_completed = true (park-and-retry) in a third of the runs; never-announced blocks judged before the orphan classification; long-chain family (peer chain longer than its block ring, empty syncer). Round 7: long-chain family with a park-and-retry syncer genesis period + 2 behind and any-order fetch completion. Rounds 8-9: near-collision of fork-id slots (syncer's checkpoint block ground to share exactly the first hash byte with the peer's).",
    design="§6 C15",
    note="Trusted: SimNet/fetch-server stubs mirroring saito-rust's network controller; handlers run to completion (event-granularity interleaving, not await-point interleaving). Runs in which a child is fetched before its parent fall into the orphan known-finding class and are reported under their own signatures. 16-bit fork-id collisions ignored.",
    technique="deterministic simulation: two-node simulated network + fetch server, seeded schedules and network/fetch faults, bounded-liveness convergence oracle"),
 
  "C08": dict(
    level="exploration",
-   text="Two seeded families through the real add_block. Work gate: one transaction set (fee classes x 8 routing-path shapes incl. forged, non-contiguous, self-hop, not ending at the creator) bundled at two timestamp offsets around the thresholds, each offered to a fresh replica; accepted => paths valid and independently computed u128 work >= parent burn fee / offset; acceptance monotone in the offset; no work needed from two heartbeats on. Payouts: routed fee-paying histories with three ticket patterns; every Fee-transaction output goes to the ticket solver, a hop recipient or a path-less sender of the blocks being paid, and the sum does not exceed the fees those blocks collected. Later additions: paths through the creator that end elsewhere; replica that joined at the parent; rounding-boundary runs (fee = integer part of burn fee / elapsed where the fraction is 0.6..0.95). Rounds 5-6: ticket-in-every-block pattern (difficulty rises); rival blocks whose golden ticket does not solve the parent's lottery (4 kinds) must be refused; a ticket solved by one key and relayed inside another key's golden-ticket transaction pays the solver. Round 7: stake-typed fee-paying transactions and fee-paying golden-ticket transactions with every routing-path shape.",
+   text="Two seeded families through the real add_block. Work gate: one transaction set (fee classes x 8 routing-path shapes incl. forged, non-contiguous, self-hop, not ending at the creator) bundled at two timestamp offsets around the thresholds, each offered to a fresh replica; accepted => paths valid and independently computed u128 work >= parent burn fee / offset; acceptance monotone in the offset; no work needed from two heartbeats on. Payouts: routed fee-paying histories with three ticket patterns; every Fee-transaction output goes to the ticket solver, a hop recipient or a path-less sender of the blocks being paid, and the sum does not exceed the fees those blocks collected. Later additions: paths through the creator that end elsewhere; replica that joined at the parent; rounding-boundary runs (fee = integer part of burn fee / elapsed where the fraction is 0.6..0.95). Rounds 5-6: ticket-in-every-block pattern (difficulty rises); rival blocks whose golden ticket does not solve the parent's lottery (4 kinds) must be refused; a ticket solved by one key and relayed inside another key's golden-ticket transaction pays the solver. Round 7: stake-typed fee-paying transactions and fee-paying golden-ticket transactions with every routing-path shape. Rounds 8-9: rebroadcast family (no routed transaction; a hop attached to rebroadcast transactions must not count); blocks validated during a reorganisation away from a low-burn-fee tip.",
    design="§6 C08",
    note="Trusted: oracle's work computation and eligibility rule (written from the property statement), signature verification primitive. The converse (sufficient work => accepted) is only counted, not demanded.",
    technique="deterministic simulation: seeded routing-path/timestamp-offset injection with independent work and payout-eligibility oracles"),
@@ -122,26 +122,26 @@ CLAIMED = {
 
  "C01": dict(
    level="exploration",
-   text="Seeded search over honest histories (fresh / after a reorganisation, 2..10/25 blocks) x a 15-entry catalogue of hostile transaction edits x entry path (pool, block as next tip, block on a side fork that becomes the longer candidate) x transaction position. Oracles: hostile tx absent from the pool, hostile block never on the longest chain, and an independent scan of the node's longest chain against the reference ledger (every value-carrying input spendable at that point and owned by the signer). The honest twin must be accepted or the run does not count. Later additions: ATR-typed transaction with plain outputs, double spend across transactions behind a zero-amount input, nodes with prune depth 1/2 and side forks of 2-4 blocks, outputs that only existed on the abandoned fork offered as inputs. Rounds 5-6: fourth entry path (hostile block on top of an honest stored sibling, i.e. the second block of the candidate chain); the spendable set is compared across every rejected block. Round 7: histories of depth 0 and 1 (hostile block #2).",
+   text="Seeded search over honest histories (fresh / after a reorganisation, 2..10/25 blocks) x a 15-entry catalogue of hostile transaction edits x entry path (pool, block as next tip, block on a side fork that becomes the longer candidate) x transaction position. Oracles: hostile tx absent from the pool, hostile block never on the longest chain, and an independent scan of the node's longest chain against the reference ledger (every value-carrying input spendable at that point and owned by the signer). The honest twin must be accepted or the run does not count. Later additions: ATR-typed transaction with plain outputs, double spend across transactions behind a zero-amount input, nodes with prune depth 1/2 and side forks of 2-4 blocks, outputs that only existed on the abandoned fork offered as inputs. Rounds 5-6: fourth entry path (hostile block on top of an honest stored sibling, i.e. the second block of the candidate chain); the spendable set is compared across every rejected block. Round 7: histories of depth 0 and 1 (hostile block #2). Rounds 8-9: first spender of a double spend typed BlockStake.",
    design="§6 C01",
    note="Trusted: reference ledger, edit catalogue, universe builder. Genesis period >> depth here (expired inputs: C13); staking off.",
    technique="deterministic simulation: seeded history x adversarial-edit injection through pool and block paths, reference-ledger oracle"),
 
  "C03": dict(
    level="exploration",
-   text="Seeded search over block trees x delivery orders (all parent vectors of <=4 (quick) / <=5 (thorough) non-genesis blocks x all delivery permutations enumerated first, then random trees up to 15/30 blocks with duplicates, invalid tips and rare orphan-first orders) through the real Blockchain::add_block; after every delivery the spendable set, by-height index, on-chain flags and tip are compared with an independent replay of the reported chain. Sampling beyond the enumerated prefix: evidence, not proof. Later additions: prune depth 1/2/3/8 and a deep single-reorganisation style (branch A completely, then the longer branch B), so that unwinding re-reads Pruned blocks. Rounds 5-6: long-chain family: producer chain with genesis period 3..6 grown to 1-3 times the block ring, an invalid block refused before the ring wraps over its slot, a reorganisation after the wrap; index judged for every id from 1 to tip + ring.",
+   text="Seeded search over block trees x delivery orders (all parent vectors of <=4 (quick) / <=5 (thorough) non-genesis blocks x all delivery permutations enumerated first, then random trees up to 15/30 blocks with duplicates, invalid tips and rare orphan-first orders) through the real Blockchain::add_block; after every delivery the spendable set, by-height index, on-chain flags and tip are compared with an independent replay of the reported chain. Sampling beyond the enumerated prefix: evidence, not proof. Later additions: prune depth 1/2/3/8 and a deep single-reorganisation style (branch A completely, then the longer branch B), so that unwinding re-reads Pruned blocks. Rounds 5-6: long-chain family: producer chain with genesis period 3..6 grown to 1-3 times the block ring, an invalid block refused before the ring wraps over its slot, a reorganisation after the wrap; index judged for every id from 1 to tip + ring. Rounds 8-9: a parentless block of exactly the tip's height counts as the orphan class only through its later children (class decided by ancestry).",
    design="§6 C03",
    note="Trusted: the reference ledger (BTreeMap over independently recomputed utxo keys), the SimIo in-memory disk, the vendored ahash with fixed seeds. Genesis period >> tree height (window edge belongs to C13).",
    technique="deterministic simulation: seeded block-tree/delivery-order search + reference-ledger replay oracle"),
  "C04": dict(
    level="exploration",
-   text="Seeded search over (shared prefix, main chain 0..4/10, candidate chain longer than main, position and kind (11 header/fee-tx edits) of the invalid candidate block, prune depth, disk read fault on the n-th block-file read). Full observable snapshot (tip, spendable set, index, stored blocks+flags, wallet) compared before/after every call that does not add the block; wind/unwind loop under a step budget proportional to the two segments; node must extend its chain afterwards. Later additions: bad blocks that are invalid through a double-spend / phantom input; candidate on the tip whose second block arrives first (multi-block candidate, empty old segment); ring family (genesis period 3..6, block K before K-1, invalid child of K, K on / next to a multiple of the ring size). Rounds 5-6: every (id, hash) entry of the block ring is part of the before/after snapshot; the ring family's known-finding exemption covers only the slot of the block that was wound and unwound.",
+   text="Seeded search over (shared prefix, main chain 0..4/10, candidate chain longer than main, position and kind (11 header/fee-tx edits) of the invalid candidate block, prune depth, disk read fault on the n-th block-file read). Full observable snapshot (tip, spendable set, index, stored blocks+flags, wallet) compared before/after every call that does not add the block; wind/unwind loop under a step budget proportional to the two segments; node must extend its chain afterwards. Later additions: bad blocks that are invalid through a double-spend / phantom input; candidate on the tip whose second block arrives first (multi-block candidate, empty old segment); ring family (genesis period 3..6, block K before K-1, invalid child of K, K on / next to a multiple of the ring size). Rounds 5-6: every (id, hash) entry of the block ring is part of the before/after snapshot; the ring family's known-finding exemption covers only the slot of the block that was wound and unwound. Rounds 8-9: every field of every wallet slip in the snapshot.",
    design="§6 C04",
    note="Trusted: snapshot code, tamper catalogue (blocks re-signed so only validation can notice), SimIo read-fault injection. Transaction-level invalidity is judged by C01. Block cache type (Pruned/Full) not compared.",
    technique="deterministic simulation: seeded fork-shape x invalid-position search with disk read-fault injection, before/after snapshot oracle, step-budget hook"),
  "C05": dict(
    level="exploration",
-   text="Seeded search over block trees (two forks, lighter-but-longer, equal-length, invalid block at any position with honest children on top, ticket-sparse interior, random) x delivery orders; reference fork-choice monitor after each delivery: height monotone; tip moves only to strictly longer, >= burn fee, valid-by-construction, ticket-dense chains; qualifying chains must be adopted; orphan deliveries must not disturb tip/index. Later additions: style sparse-deep (ticket-poor window more than six blocks below the challenger's tip), prune depth 1/2/3, panics after an orphan delivery classified under the orphan finding.",
+   text="Seeded search over block trees (two forks, lighter-but-longer, equal-length, invalid block at any position with honest children on top, ticket-sparse interior, random) x delivery orders; reference fork-choice monitor after each delivery: height monotone; tip moves only to strictly longer, >= burn fee, valid-by-construction, ticket-dense chains; qualifying chains must be adopted; orphan deliveries must not disturb tip/index. Later additions: style sparse-deep (ticket-poor window more than six blocks below the challenger's tip), prune depth 1/2/3, panics after an orphan delivery classified under the orphan finding. Rounds 8-9: burnfee-floor style (exact burn-fee ties).",
    design="§6 C05",
    note="Trusted: validity by construction (honest builder output valid; edited block and descendants invalid), burn fee read from headers of honest blocks, universe builder (stores blocks without fork choice).",
    technique="deterministic simulation: seeded block-tree/delivery-order search + reference fork-choice monitor"),
